@@ -122,7 +122,7 @@ func main() {
 		return
 	}
 	e := common.New(5)
-	n := e.Pick(450, 12000)
+	n := e.Pick(450, 6000)
 	for i := 0; i < n; i++ {
 		id := fmt.Sprintf("f%d", i)
 		k := i
@@ -142,7 +142,7 @@ func main() {
 		switch r := e.Rand.IntN(40); {
 		case r < 2 && i%5 == 0:
 			plan.Sparse = true
-			plan.SparseHigh = e.Thorough && e.Rand.IntN(3) == 0
+			plan.SparseHigh = e.Thorough && e.Rand.IntN(6) == 0
 		case r < 4:
 			plan.ZeroCompressed = true
 		}
@@ -242,22 +242,6 @@ func oracle(path string) {
 		id := fs[0]
 		data := common.UnHex(fs[1])
 		var orc [][2][]byte
-		maxNum := uint32(400)
-		for _, l := range expect[id] {
-			parts := strings.Split(strings.Fields(l)[0], ".")
-			if len(parts) == 3 {
-				var n uint32
-				fmt.Sscan(parts[1], &n)
-				if n+50 > maxNum && n < 100000 {
-					maxNum = n + 50
-				}
-			}
-		}
-		// other filters: go-pdf's decoders, through the real Reader
-		if r, err := pdf.NewReader(newBytesReader(data), int64(len(data)), nil); err == nil {
-			orc = append(orc, rawStreams(r, data, maxNum)...)
-		}
-		orc = append(orc, prog.ZlibOracle(data)...)
 		var qs []pdf.Reference
 		for _, l := range expect[id] {
 			f := strings.Fields(l)
@@ -270,6 +254,11 @@ func oracle(path string) {
 			}
 			line("impl2.obs", "%s", l)
 		}
+		// other filters: go-pdf's decoders, through the real Reader
+		if r, err := pdf.NewReader(newBytesReader(data), int64(len(data)), nil); err == nil {
+			orc = append(orc, rawStreams(r, qs)...)
+		}
+		orc = append(orc, prog.ZlibOracle(data)...)
 		emitCase(line, "cases2.txt", id, data, false, orc, qs)
 	}
 	for _, w := range files {
